@@ -13,6 +13,7 @@ func init() {
 			{Name: "sequential-histories", Cfg: "mode=tenant", Gating: true, Share: 3},
 			{Name: "plain-names", Cfg: "mode=tenant,plainnames", Gating: true, Share: 3},
 			{Name: "kv-faults", Cfg: "mode=tenant,faults,plainnames", Gating: false, Share: 1},
+			{Name: "concurrent-clients", Cfg: "mode=tenant,conc,plainnames", Gating: false, Share: 1},
 		},
 		QuickSecs: 40, ThoroughSecs: 600,
 		Rule: "one case = one generated history of organization/bucket/user/membership create, rename, delete calls issued by 2-3 logical clients over small colliding name domains; " +
@@ -29,6 +30,7 @@ func init() {
 			{Name: "sequential-histories", Cfg: "mode=dbrp", Gating: true, Share: 3},
 			{Name: "restricted", Cfg: "mode=dbrp,novirtupd,noplain", Gating: true, Share: 3},
 			{Name: "kv-faults", Cfg: "mode=dbrp,faults,novirtupd,noplain", Gating: false, Share: 1},
+			{Name: "concurrent-clients", Cfg: "mode=dbrp,conc,novirtupd,noplain", Gating: false, Share: 1},
 		},
 		QuickSecs: 40, ThoroughSecs: 600,
 		Rule: "one case = one generated history of DBRP mapping create/update/delete calls (2 organizations x 2 databases x 3 retention policies, updates and deletes by listed id incl. virtual ids) " +
